@@ -53,7 +53,9 @@ type Font struct {
 // Decode reads a complete font file: PFB (first byte 0x80) or a plain stream
 // with the encrypted portion in hex or binary form or not encrypted at all.
 // pdf tells the decoder that the data is the PDF embedding form, which ends
-// with the encrypted portion (no trailer).
+// with the encrypted portion (no trailer).  On an error inside or after the
+// encrypted portion the returned Font is non-nil and has its Layout filled as
+// far as it was determined.
 func Decode(file []byte, pdf bool) (*Font, *Error) {
 	f := &Font{}
 	lay := &f.Layout
@@ -132,11 +134,13 @@ func Decode(file []byte, pdf bool) (*Font, *Error) {
 		m.lex = inner
 		m.inEexec = true
 		m.wantEexec = false
+		// from here on the partially filled Font is returned together with an
+		// error, so that the caller can look at the container-level facts
 		if err := m.run(); err != nil {
-			return nil, &Error{Class: "encrypted-portion:" + err.Class, Msg: err.Msg}
+			return f, &Error{Class: "encrypted-portion:" + err.Class, Msg: err.Msg}
 		}
 		if !m.closedEexec {
-			return nil, errf("encrypted-portion:no-closefile", "the encrypted portion ends without `currentfile closefile`")
+			return f, errf("encrypted-portion:no-closefile", "the encrypted portion ends without `currentfile closefile`")
 		}
 		consumed := inner.pos // plaintext bytes consumed, including the 4 lead bytes
 		if lay.EExec == "hex" {
